@@ -1,7 +1,8 @@
-(* C03 — LST supply integrity and exact delivery of minted tokens (contract-level part; the supply and
-   contract-balance equations over whole histories are in Properties/C03w.v over the World model). *)
-From MW Require Import Staking.
+(* C03 — LST supply integrity and exact delivery of minted tokens (contract level, whole call histories, and at the end
+   the supply equation along every history of the world model of World.v). *)
+From MW Require Import Staking World.
 From MW.Proofs Require Import Tactics Handlers.
+From MW.Proofs Require Import Invariant Ledger WorldProofs.
 Open Scope N_scope.
 
 (* A successful LiquidStake: one mint of m to the contract itself, the stake forwarded to the staker, and
@@ -102,3 +103,22 @@ Proof.
   destruct (fold_left (wstep va dv av) cs sw) as [s w]. destruct HS as (_ & _ & _ & _ & _ & E). exact E.
 Qed.
 Print Assumptions C03_holdings.
+
+(* the same supply equation along every history of the world model (World.v): the token factory executes exactly the mint
+   and burn messages of committed transactions, so the circulating supply is minted - burnt of the world's ghost *)
+Theorem C03_world_supply : forall va dv av e i m s r evs,
+  instantiate va e i m = Ok (s, r) ->
+  let w := wrun va dv av (world0 s) evs in
+  let g := wghost va dv av (world0 s) g0 evs in
+  (Z.of_N (total_lst (st (w_store w))) + Z.of_N (g_burnt g) = Z.of_N (g_minted g) + g_adjL g)%Z.
+Proof.
+  intros va dv av e i m s r evs H. cbv zeta.
+  assert (HI : I_batches s) by (eapply instantiate_I_batches; exact H).
+  assert (H0 : Led s (w_store (world0 s), g0)).
+  { unfold Led, g0, ZN. cbn. split; [exact HI | split; lia]. }
+  destruct (world_ledger va dv av s (world0 s) g0 evs H0) as [(_ & _ & A) _].
+  assert (L0 : total_lst (st s) = 0).
+  { unfold instantiate in H. inv_ok H. inversion H; subst. reflexivity. }
+  unfold ZN in A. rewrite L0 in A. cbn [world0 w_store] in *. lia.
+Qed.
+Print Assumptions C03_world_supply.
